@@ -322,6 +322,14 @@ CORPUS.append(
      "tasks": [{"tid": 100, "marked_truth": True,
                 "recs": [(ENTRY, 0, BASE + 0x1000, 1000), (ENTRY, 1, BASE + 0x1100, 1100), (LOST, 0, 1, 0),
                          (EXIT, 1, BASE + 0x1100, 1900), (LOST, 0, 1, 0), (EXIT, 0, BASE + 0x1000, 2000)]}]})
+CORPUS.append(
+    # fixed 5fe3294 / b241d75 / a863f9f: the stdv column (zero mean, calls longer than 4.29 s, sigma/mean)
+    {"kind": "forest", "max_stack": 1024, "tags": ["corpus:stdv"],
+     "syms": [(0x1000, 0x80, "T", "main"), (0x1100, 0x80, "T", "work"), (0x1200, 0x80, "T", "zero"), (0x1300, 0x80, "T", "big")],
+     "fns": [(BASE + 0x1000, "main"), (BASE + 0x1100, "work"), (BASE + 0x1200, "zero"), (BASE + 0x1300, "big")],
+     "tasks": [{"tid": 100, "forest": [[0, 1000, 11 * 10 ** 9 + 5000,
+                                        [[1, 2000, 2100, []], [1, 2200, 2500, []], [2, 2600, 2600, []], [2, 2700, 2700, []],
+                                         [3, 3000, 3000 + 5 * 10 ** 9, []], [3, 4000 + 5 * 10 ** 9, 4000 + 11 * 10 ** 9, []]]]]}]})
 WITNESS_LOST_WRAP = "corpus:lost-after-inherited-wrap"
 
 
@@ -484,6 +492,15 @@ def q_truth(case):
     return "Some " + q_list(tts)
 
 
+def span_of(case):
+    """time spanned by the records of the case (LOST markers carry time 0: not counted); kinds whose figures are
+    not bounded by construction (EXIT at stack 0 reads a stale slot) get no bound"""
+    if case["kind"] in ("extra-exit",):
+        return (1 << 64) - 1
+    ts = [r[3] for t in case["tasks"] for r in t["recs"] if r[0] != LOST]
+    return (max(ts) - min(ts)) if ts else 0
+
+
 def inherited_counts(case):
     """per task: number of frames open at the first record (0 for data starting at depth 0)"""
     return [(t["truth"][2] if t["truth"] is not None and len(t["truth"]) > 2 else 0) for t in case["tasks"]]
@@ -525,7 +542,13 @@ Definition nd nm call ts tr ta tmi tma ss sr sa smi sma :=
   mknode nm call (mkstat ts tr tmi tma ta) (mkstat ss sr smi sma sa).
 Record tcase := mk { tc : case; i_rows : list (list (N * N * N * bool)); i_tbl : list node;
                      i_sorts : list (list key * list N); i_truth : option (list ttrace);
-                     i_order : list nat; i_grows : list (N * N * N * bool); i_inh : list nat }.
+                     i_order : list nat; i_grows : list (N * N * N * bool); i_inh : list nat; i_span : N }.
+(* sanity bound for data the exact checker does not judge (LOST markers with unbalanced drops): no figure of a
+   node exceeds the time the data spans, Self never exceeds Total *)
+Definition prop_bounded t :=
+  forallb (fun n => (smax (n_total n) <=? i_span t) && (smax (n_self n) <=? smax (n_total n))
+                    && (sum (n_self n) <=? sum (n_total n) + recs (n_total n))
+                    && (sum (n_total n) + recs (n_total n) <=? n_call n * i_span t)) (i_tbl t).
 (* generator self-check: the ground truth flattens to the records written, LOST markers erased, preceded by one
    ENTRY record of address 0 at the first record's time per frame open when the data begins *)
 Definition zeros' (k : nat) (rs : list rec) : list rec :=
@@ -626,9 +649,9 @@ def q_tcase(case, res, amap, num):
                     for ks, order in res["sorts"]])
     grows = q_list(["(%d, %d, %d, %s)" % (num.get(n, 0), tot, slf, coq.coq_bool(rc and tot != 0))
                     for n, tot, slf, rc in res["grows"]])
-    return "mk (%s) %s %s %s (%s) %s %s %s" % (q_case(case, amap), q_list(rows), q_list([q_node(n, num) for n in res["nodes"]]),
+    return "mk (%s) %s %s %s (%s) %s %s %s %d" % (q_case(case, amap), q_list(rows), q_list([q_node(n, num) for n in res["nodes"]]),
                                             sorts, q_truth(case), q_list(["%d%%nat" % i for i in merge_order(case)]), grows,
-                                            q_list(["%d%%nat" % k for k in inherited_counts(case)]))
+                                            q_list(["%d%%nat" % k for k in inherited_counts(case)]), span_of(case))
 
 
 # ---------------------------------------------------------------- end-to-end option sets
@@ -989,6 +1012,7 @@ def evaluate(ctx, terms, eterms):
               ("m_sort", "bad_indices sorts_ok cases 0"),
               ("v_table", "bad_indices prop_table cases 0"),
               ("v_sorted", "bad_indices prop_sorted cases 0"),
+              ("v_bounded", "bad_indices prop_bounded cases 0"),
               ("m_stdout", "bad_indices e_model_ok ecases 0"),
               ("v_stdout", "bad_indices e_prop_ok ecases 0"),
               ("m_task", "bad_indices e_task_model ecases 0"),
@@ -1011,6 +1035,7 @@ def evaluate(ctx, terms, eterms):
 WHAT = {
     "v_table": "report node table is not the exact sums of the trace (Calls/Total/Self/min/max/avg or Self conservation)",
     "v_sorted": "report rows do not follow the requested sort keys",
+    "v_bounded": "a figure of the report exceeds the time the data spans (wrapped or garbage duration), or Self exceeds Total",
     "v_stdout": "`uftrace report` prints a figure that is not the node's value, or rows out of key order",
     "v_task": "`uftrace report --task`: a task's total is not the summed duration of its top-level calls",
     "v_diff": "`uftrace report --diff` of a data set against itself reports a difference",
